@@ -15,7 +15,16 @@ TRUSTED = [
 ]
 
 CONCAT_BASE = 1000000
-_POOL = []
+_POOLS = {"A": [], "B": []}
+_POOL = _POOLS["A"]
+# pool B: names chosen so that different (sender, receiver) pairs have the same concatenated name
+# ("qa"+"bbz" = "qab"+"bz" = "qabb"+"z"; "1"+"11" = "11"+"1"): anything keyed by name concatenation collapses them
+_NAMES_B = ["qa", "qab", "bz", "bbz", "qabb", "z", "1", "11"]
+
+
+def use_pool(which):
+    global _POOL
+    _POOL = _POOLS[which]
 
 
 def pool(k):
@@ -23,7 +32,8 @@ def pool(k):
     from reservoirpy.node import Node
     while len(_POOL) < k:
         i = len(_POOL)
-        _POOL.append(Node(forward=lambda n, x: x, name=f"c03_v{i}"))
+        name = f"c03_v{i}" if _POOL is _POOLS["A"] else _NAMES_B[i]
+        _POOL.append(Node(forward=lambda n, x: x, name=name))
     return _POOL[:k]
 
 
@@ -289,7 +299,20 @@ def report_dups(ctx, c, dups, model_dups, ob):
 
 
 def check_cases(ctx, cases):
+    """cases carry an optional "names": "B" (the pool of adversarially named nodes)"""
     common.quiet()
+    groups = {}
+    for c in cases:
+        groups.setdefault(c.get("names", "A"), []).append(c)
+    for which, grp in sorted(groups.items()):
+        use_pool(which)
+        try:
+            _check_cases(ctx, grp)
+        finally:
+            use_pool("A")
+
+
+def _check_cases(ctx, cases):
     k = 8
     nodes = pool(k)
     mcases = [{"kind": "graph_expr", "expr": c["expr"]} for c in cases]
@@ -412,6 +435,27 @@ def run(ctx):
         for e in (["&", a, b], ["&", b, a], ["&", a, a], ["&", ["&", a, b], c], ["&", a, ["&", b, c]],
                   [">>", [">>", a, b], c], [">>", a, [">>", b, c]]):
             cases.append({"stream": "laws", "expr": e})
+    # the same kinds of cases over nodes whose names collide under concatenation; colliding edge pairs
+    # (0->3, 1->2, 4->5, 6->7, 7->6) are planted in half of the random digraphs
+    for _ in range(ctx.n(150, 1500)):
+        n = 8
+        es = []
+        if g.chance(0.5):
+            es += g.sample([[0, 3], [1, 2], [4, 5]], 2)
+        if g.chance(0.25):
+            es += [[6, 7], [7, 6]] if g.chance(0.5) else [[6, 7]]
+        for _e in range(g.randint(0, 4)):
+            a, b = g.randint(0, n - 1), g.randint(0, n - 1)
+            if a != b and [a, b] not in es:
+                es.append([min(a, b), max(a, b)] if g.chance(0.8) else [a, b])
+        es = [list(x) for x in {tuple(e) for e in es}]
+        used = sorted({v for e in es for v in e}) or [0]
+        cases.append({"stream": "random_digraph_names", "names": "B", "expr": ["model", used, es], "raw": [used, [tuple(e) for e in es]]})
+    for _ in range(ctx.n(100, 1000)):
+        e = gen_expr(g, 4, 8)
+        while e[0] in ("node", "list"):
+            e = gen_expr(g, 4, 8)
+        cases.append({"stream": "expression_names", "names": "B", "expr": e})
     corpus_progs = [c for c in cases if "stmts" in c]
     cases = [c for c in cases if "stmts" not in c]
     check_cases(ctx, cases)
